@@ -407,6 +407,9 @@ class AggregatedFrame(ProtocolDataUnit):
                 (pdu_size,) = struct.unpack_from('!H', data, offset)
             except struct.error:
                 raise DecodeError("aggregated PDU length field error in AGF")
+            if data[offset+2:offset+4] == b"\x00\x80":
+                # nesting would also allow to exhaust the call stack
+                raise DecodeError("AGF PDU within an AGF PDU")
             agf_pdu.append(decode(data, offset+2, pdu_size))
             offset, size = offset + 2 + pdu_size, size - 2 - pdu_size
         return agf_pdu
